@@ -9,7 +9,9 @@ import (
 	pfetch "github.com/segmentio/kafka-go/protocol/fetch"
 	meta "github.com/segmentio/kafka-go/protocol/metadata"
 	pendtxn "github.com/segmentio/kafka-go/protocol/endtxn"
+	"github.com/segmentio/kafka-go/protocol"
 	pfindcoordinator "github.com/segmentio/kafka-go/protocol/findcoordinator"
+	plistoffsets "github.com/segmentio/kafka-go/protocol/listoffsets"
 	pproduce "github.com/segmentio/kafka-go/protocol/produce"
 	psyncgroup "github.com/segmentio/kafka-go/protocol/syncgroup"
 )
@@ -329,4 +331,54 @@ func VH_C12_VersionPerBroker() {
 		}
 	}
 	vhReach("c12-version-per-broker")
+}
+
+// ListOffsets fan-out routing: Request.Split against the cached cluster layout and Broker() of each sub-request.
+// Every partition carried by a sub-request is led by the broker the sub-request is routed to; partitions the layout
+// does not know are routed to "any broker" (-1) on their own, never together with a known partition.
+func VH_C12_ListOffsetsRouting() {
+	// brokers 0, 1, 2 (an id of 0 is legal); topic "t" with three partitions led by symbolic brokers
+	cluster := protocol.Cluster{Brokers: map[int32]protocol.Broker{}, Topics: map[string]protocol.Topic{}}
+	for id := int32(0); id < 3; id++ {
+		cluster.Brokers[id] = protocol.Broker{ID: id, Host: "h", Port: 9092 + id}
+	}
+	leaders := make([]int32, 3)
+	topic := protocol.Topic{Name: "t", Partitions: map[int32]protocol.Partition{}}
+	for p := 0; p < 3; p++ {
+		leaders[p] = int32(vhChoose("leader", 3))
+		topic.Partitions[int32(p)] = protocol.Partition{ID: int32(p), Leader: leaders[p]}
+	}
+	cluster.Topics["t"] = topic
+	// the request lists an unknown topic, an unknown partition of "t" and the known partitions, in a chosen order
+	entries := []struct {
+		topic string
+		part  int32
+	}{{"unknown", 0}, {"t", 7}, {"t", 0}, {"t", 1}, {"t", 2}}
+	firstIdx := vhChoose("first_entry", len(entries))
+	entries[0], entries[firstIdx] = entries[firstIdx], entries[0]
+	req := &plistoffsets.Request{ReplicaID: -1}
+	for _, e := range entries {
+		req.Topics = append(req.Topics, plistoffsets.RequestTopic{Topic: e.topic, Partitions: []plistoffsets.RequestPartition{{Partition: e.part, Timestamp: -1}}})
+	}
+	msgs, _, err := req.Split(cluster)
+	vhAssert(err == nil, "split-ok")
+	covered := 0
+	for _, m := range msgs {
+		sub := m.(*plistoffsets.Request)
+		b, berr := sub.Broker(cluster)
+		vhAssert(berr == nil, "sub-request-routable")
+		for _, t := range sub.Topics {
+			for _, p := range t.Partitions {
+				covered++
+				known := t.Topic == "t" && p.Partition >= 0 && p.Partition < 3
+				if known {
+					vhAssert(b.ID == leaders[p.Partition], "known-partition-is-sent-to-its-leader")
+				} else {
+					vhAssert(b.ID == -1, "unknown-partition-is-sent-to-any-broker")
+				}
+			}
+		}
+	}
+	vhAssert(covered == len(entries), "every-requested-partition-is-in-exactly-one-sub-request")
+	vhReach("c12-listoffsets-routing")
 }
